@@ -109,7 +109,7 @@ class InitialStateContainer:
         # Data allocation
         state: InitialStateEnum = InitialStateEnum.ZERO
 
-        if initial_state_index in self.initial_states:
+        if initial_state_index in self.ancilla_initial_states:
             state = self.ancilla_initial_states[initial_state_index]
 
         return self.get_operation(
